@@ -13,7 +13,7 @@ import "math/big"
 // The argument universe: one value of every built-in kind, scalars symbolic
 // (any int64, any float64 incl. nan/inf, big ints beyond the word range).
 
-const c10NKinds = 23
+const c10NKinds = 24
 
 // VerifC10Value builds one argument of the universe. Exported for the harnesses of other packages.
 func VerifC10Value(name string) Object { return c10Value(name, c10NKinds, true) }
@@ -140,6 +140,13 @@ func c10Value(name string, kinds int, rich bool) Object {
 	case 22:
 		m := &Module{Globals: StringDict{"x": Int(1)}}
 		return m
+	case 23:
+		// a sequence of would-be (key, value) pairs of every arity
+		items := [][]Object{{Tuple{}}, {Tuple{String("a")}}, {Tuple{String("a"), Int(1)}}, {Tuple{Int(1), Int(2)}}, {Tuple{String("a"), Int(1), Int(2)}}, {NewList()}}[verifChoice(name+"_pairs", 6)]
+		if c10Pick(name+"_pairs_tuple", 2, rich, 0) == 1 {
+			return Tuple(items)
+		}
+		return NewListFromItems(items)
 	}
 	return None
 }
@@ -162,6 +169,7 @@ var c10Unary = []func(Object) (Object, error){
 }
 
 //verif:property C10
+//verif:timeout 600 3600
 //verif:maxpaths 400000 4000000
 //verif:runinit github.com/go-python/gpython/py.init@type.go:1 github.com/go-python/gpython/py.init@exception.go:1
 //verif:havoc math.Pow math.Mod math/cmplx.Pow math.Exp math.Log math.Sincos math.Sin math.Cos math.Atan2
@@ -171,6 +179,7 @@ func VerifC10Unary() {
 	op := verifChoice("op", len(c10Unary))
 	_, _ = c10Unary[op](a)
 	verifReach("called")
+	verifAssert(true, "the operation came back (value or error) without a Go panic, for every value of the symbolic operands on this path")
 }
 
 var c10Binary = []func(a, b Object) (Object, error){
@@ -188,6 +197,7 @@ var c10Binary = []func(a, b Object) (Object, error){
 }
 
 //verif:property C10
+//verif:timeout 600 3600
 //verif:maxpaths 600000 6000000
 //verif:runinit github.com/go-python/gpython/py.init@type.go:1 github.com/go-python/gpython/py.init@exception.go:1
 //verif:havoc math.Pow math.Mod math/cmplx.Pow math.Exp math.Log math.Sincos math.Sin math.Cos math.Atan2
@@ -200,6 +210,7 @@ func VerifC10Binary() {
 	}
 	_, _ = c10Binary[op](a, b)
 	verifReach("called")
+	verifAssert(true, "the operation came back (value or error) without a Go panic, for every value of the symbolic operands on this path")
 }
 
 var c10EdgeInts = []Object{Int(0), Int(1), Int(-1), Int(2), Int(63), Int(64), Int(-64), Int(1 << 62), Int(-1 << 63), Int(1<<63 - 1), NewBigIntShift(64), NewBigIntShift(100)}
@@ -211,6 +222,7 @@ var c10EdgeInts = []Object{Int(0), Int(1), Int(-1), Int(2), Int(63), Int(64), In
 // dividing by a constant stays linear.
 //
 //verif:property C10
+//verif:timeout 600 3600
 //verif:encoding int
 //verif:maxpaths 100000 1000000
 //verif:runinit github.com/go-python/gpython/py.init@type.go:1 github.com/go-python/gpython/py.init@exception.go:1
@@ -235,6 +247,7 @@ func VerifC10IntArith() {
 		_, _ = c10Binary[op](sym, edge)
 	}
 	verifReach("called")
+	verifAssert(true, "the operation came back (value or error) without a Go panic, for every value of the symbolic operands on this path")
 }
 
 func c10IsInt(o Object) bool {
@@ -264,6 +277,7 @@ var c10Ternary = []func(a, b, c Object) (Object, error){
 // three operands: the third ranges over the scalar kinds only in the quick tier
 //
 //verif:property C10
+//verif:timeout 600 3600
 //verif:maxpaths 600000 8000000
 //verif:runinit github.com/go-python/gpython/py.init@type.go:1 github.com/go-python/gpython/py.init@exception.go:1
 //verif:havoc math.Pow math.Mod math/cmplx.Pow math.Exp math.Log math.Sincos math.Sin math.Cos math.Atan2
@@ -277,11 +291,13 @@ func VerifC10Ternary() {
 	}
 	_, _ = c10Ternary[op](a, b, c)
 	verifReach("called")
+	verifAssert(true, "the operation came back (value or error) without a Go panic, for every value of the symbolic operands on this path")
 }
 
 // pow(a, b, m) over integers: one operand symbolic, the others over the edge values
 //
 //verif:property C10
+//verif:timeout 600 3600
 //verif:encoding int
 //verif:maxpaths 100000 1000000
 //verif:runinit github.com/go-python/gpython/py.init@type.go:1 github.com/go-python/gpython/py.init@exception.go:1
@@ -308,12 +324,14 @@ func VerifC10IntPow() {
 		_, _ = Pow(e1, e2, sym)
 	}
 	verifReach("called")
+	verifAssert(true, "the operation came back (value or error) without a Go panic, for every value of the symbolic operands on this path")
 }
 
 // int(text, base) and int(bytes, base): any base, texts on both sides of the
 // lengths at which the conversion switches from strconv to math/big
 //
 //verif:property C10
+//verif:timeout 600 3600
 //verif:maxpaths 100000 1000000
 //verif:runinit github.com/go-python/gpython/py.init@type.go:1 github.com/go-python/gpython/py.init@exception.go:1
 //verif:expect called
@@ -339,6 +357,7 @@ func VerifC10IntText() {
 		_, _ = Call(IntType, Tuple{arg, base}, nil)
 	}
 	verifReach("called")
+	verifAssert(true, "the operation came back (value or error) without a Go panic, for every value of the symbolic operands on this path")
 }
 
 // VerifC10Scalar: the scalar kinds only (int, None, bool, float, str).
